@@ -299,6 +299,12 @@ func (b *brBox) same(vm *goja.Runtime, w goja.Value, byValShared bool, wlen int)
 	return "ok"
 }
 
+// brTNode is the ExportTo target of the typed graph family
+type brTNode struct {
+	Any  interface{}
+	Next *brTNode
+}
+
 // InstallBridge registers __brNew, __brGo, __brPtr and __brGraph.
 func InstallBridge(vm *goja.Runtime) {
 	boxes := map[*goja.Object]*brBox{}
@@ -476,6 +482,56 @@ func InstallBridge(vm *goja.Runtime) {
 			panic(vm.NewTypeError("__brGo: unknown op " + op))
 		}
 		return goja.Undefined()
+	})
+	// __brGraphTo(v): ExportTo(v, &T) with T = struct{ Any interface{}; Next *T } and describe what Go got (T nodes and maps named by
+	// first visit, Any before Next): sharing must hold per representation
+	vm.Set("__brGraphTo", func(call goja.FunctionCall) goja.Value {
+		var root brTNode
+		if err := vm.ExportTo(call.Argument(0), &root); err != nil {
+			panic(vm.NewGoError(err))
+		}
+		tids := map[*brTNode]int{}
+		mids := map[uintptr]int{}
+		var walkM func(x interface{}) string
+		var walkT func(n *brTNode) string
+		walkM = func(x interface{}) string {
+			switch v := x.(type) {
+			case map[string]interface{}:
+				p := reflect.ValueOf(v).Pointer()
+				if id, ok := mids[p]; ok {
+					return "#M" + strconv.Itoa(id)
+				}
+				id := len(mids)
+				mids[p] = id
+				s := ""
+				if a, ok := v["Any"]; ok {
+					s = "Any:" + walkM(a)
+				}
+				if nx, ok := v["Next"]; ok {
+					if s != "" {
+						s += ","
+					}
+					s += "Next:" + walkM(nx)
+				}
+				return "M" + strconv.Itoa(id) + "{" + s + "}"
+			case nil:
+				return "nil"
+			}
+			return fmt.Sprint(x)
+		}
+		walkT = func(n *brTNode) string {
+			if n == nil {
+				return "nil"
+			}
+			if id, ok := tids[n]; ok {
+				return "#T" + strconv.Itoa(id)
+			}
+			id := len(tids)
+			tids[n] = id
+			a := walkM(n.Any)
+			return "T" + strconv.Itoa(id) + "{Any:" + a + ",Next:" + walkT(n.Next) + "}"
+		}
+		return vm.ToValue(walkT(&root))
 	})
 	// __brGraph(v): Export() a script-built object graph and describe its shape: every map / slice node gets a number in
 	// first-visit order (keys sorted), a revisited node prints as "#n".  Sharing and cycles must survive one Export().
